@@ -229,7 +229,7 @@ def _c19_worker(args):
     out = {"steps": 0, "episodes": 0, "violations": [], "disagreements": [], "terminal": 0, "truncated": 0,
            "pairs": 0, "samples": [], "ends": collections.Counter()}
     for k in range(n):
-        prof = rng.choice(["classic", "classic", "transport", "buffers", "full"])
+        prof = rng.choice(["classic", "classic", "transport", "buffers", "full", "stoch"])
         d, feats = gen.gen_instance(rng, prof)
         sb = rng.choice([1, 1, 2, 0.5, 10])
         db = rng.choice([0.001, 0.01, 0, 1])
@@ -239,6 +239,7 @@ def _c19_worker(args):
         rc = dataclasses.replace(cfg.reward_factory.binary_action_jssp_reward, sparse_bias=sb, dense_bias=db, truncation_bias=tb)
         cfg = dataclasses.replace(cfg, reward_factory=dataclasses.replace(cfg.reward_factory, binary_action_jssp_reward=rc))
         finished = []   # (makespan, main term) of finished episodes on this instance
+        prev_env = None
         for rep in range(2):
             p = rng.choice([0.3, 0.6, 0.9, 1.0])
             pol = gen.Policy(random.Random(rng.randrange(1 << 30)), p)
@@ -249,9 +250,13 @@ def _c19_worker(args):
                 if stepinfo is None:
                     st["streak"] = 0
                     inst = env.instance
-                    info0.update(lb=calculate_lower_bound(inst), tmax=get_max_allowed_time(inst),
-                                 nops=sum(len(j.operations) for j in inst.instance.specification),
-                                 njobs=len(inst.instance.specification))
+                    noted = getattr((getattr(env, "init_args", None) or {}).get("compiler"), "_verif_last", None)
+                    if noted:
+                        info0.update(noted)
+                    else:
+                        info0.update(lb=calculate_lower_bound(inst), tmax=get_max_allowed_time(inst),
+                                     nops=sum(len(j.operations) for j in inst.instance.specification),
+                                     njobs=len(inst.instance.specification))
                     return
                 a, obs, rew, term, trunc, info = stepinfo
                 out["steps"] += 1
@@ -292,14 +297,22 @@ def _c19_worker(args):
                             out["violations"].append({"kind": "reward:terminal", "detail": "main term %s (impl %r) != %s"
                                                       % (main, (rew - float(fd * dense)) / float(fs), expect),
                                                       "replay": {"query": q, "dsl": d}})
-                        finished.append((t, Fraction((rew - float(fd * dense)) / float(fs)).limit_denominator(10**9), rew))
+                        finished.append((t, Fraction((rew - float(fd * dense)) / float(fs)).limit_denominator(10**9), rew,
+                                         (info0["lb"], info0["tmax"])))
                 if not ok:
                     out["disagreements"].append({"where": "reward", "replay": {"query": q, "model": m, "impl": rew}})
                 if len(out["samples"]) < 2 and term:
                     out["samples"].append({"query": q, "model": m, "impl_reward": rew})
 
             try:
-                env, end, acts, et = batch.run_episode(None, d, cfg, pol, max_steps=300, env_hook=hook)
+                if rep == 1 and prev_env is not None and rng.random() < 0.6:
+                    # second episode on the SAME environment object (reset): the normalisation constants must be
+                    # those of the instance of THIS episode
+                    end, acts, et = batch.rerun_episode(prev_env, pol, max_steps=300, env_hook=hook)
+                    out["reused_env_episodes"] = out.get("reused_env_episodes", 0) + 1
+                else:
+                    env, end, acts, et = batch.run_episode(None, d, cfg, pol, max_steps=300, env_hook=hook)
+                    prev_env = env
             except jsl.Unsupported:
                 end = "unsupported"
             out["episodes"] += 1
@@ -308,7 +321,9 @@ def _c19_worker(args):
                 out["violations"].append({"kind": "outcome:raise:ZeroDivisionError", "detail": "reward raised ZeroDivisionError",
                                           "replay": {"dsl": d}, "facts": {"lb_equals_tmax": info0.get("lb") == info0.get("tmax"),
                                                                           "lb": info0.get("lb"), "tmax": info0.get("tmax")}})
-        for (m1, f1, r1), (m2, f2, r2) in itertools.combinations(finished, 2):
+        for (m1, f1, r1, k1), (m2, f2, r2, k2) in itertools.combinations(finished, 2):
+            if k1 != k2:
+                continue     # stochastic durations: the two episodes are not episodes of one instance
             out["pairs"] += 1
             if (m1 < m2 and not f1 > f2) or (m2 < m1 and not f2 > f1) or (m1 == m2 and f1 != f2):
                 out["violations"].append({"kind": "reward:not_monotone", "detail": "makespans %s,%s main terms %s,%s"
@@ -542,6 +557,8 @@ def _obs_worker(args):
                 st["labels"] = labels_sx(st["codec"])
                 st["first_obs"] = copy.deepcopy(env.current_observation[0])
                 st["first_state"] = st["codec"].state(env.state.state)
+                st["first_state_obj"] = env.state.state
+                st["first_instance_obj"] = env.instance
                 check_obs(env, env.current_observation[0], False, "reset")
                 return
             a, obs, rew, term, trunc, info = stepinfo
@@ -571,17 +588,22 @@ def _obs_worker(args):
                                           "replay": {"dsl": d}})
             has_stoch = bool(st["codec"].sto_objs)
             try:
+              for nreset in range(2):
                 obs0, info0 = env.reset()
                 out["resets"] += 1
                 c2 = jsl.Codec(env.instance, True)
                 okflags = (not env.terminated and not env.truncated and not env.done and len(env.history) == 0)
                 same_state = has_stoch or c2.state(env.state.state) == st["first_state"]
+                # the objects themselves (identifiers included), not only their positional serialization
+                same_raw = has_stoch or (env.state.state == st["first_state_obj"] and env.instance == st["first_instance_obj"])
                 same_obs = has_stoch or all(np.array_equal(np.asarray(obs0[key]), np.asarray(st["first_obs"][key]))
                                             for key in st["first_obs"])
-                if not (okflags and same_state and same_obs):
-                    out["violations"].append({"kind": "contract:reset", "detail": "reset did not return to the initial "
-                                              "situation (flags ok=%s state=%s obs=%s)" % (okflags, same_state, same_obs),
+                if not (okflags and same_state and same_obs and same_raw):
+                    out["violations"].append({"kind": "contract:reset", "detail": "reset #%d did not return to the initial "
+                                              "situation (flags ok=%s state=%s objects=%s obs=%s)"
+                                              % (nreset + 1, okflags, same_state, same_raw, same_obs),
                                               "replay": {"dsl": d}})
+                    break
             except Exception as e:  # noqa
                 out["violations"].append({"kind": "contract:reset", "detail": "reset raised %s" % type(e).__name__,
                                           "replay": {"dsl": d}})
@@ -695,10 +717,16 @@ def gen_doc(rng, big=False):
                                     nj=rng.choice([1, 2, 2, 3, 4]))
     ic = d["instance_config"]
     nj, nm = feats["nj"], feats["nm"]
-    if "logistics" in ic and rng.random() < 0.4:
+    if ("logistics" in ic and rng.random() < 0.4) or ("logistics" not in ic and rng.random() < 0.3):
+        # (without a logistics section the default travel matrix has to cover every standalone buffer)
         gen.gen_custom_buffers(rng, d, nj)
-        if rng.random() < 0.5:   # a third, compensation buffer
-            ic["buffer"].append({"name": "b-2", "type": "flex_buffer", "capacity": nj, "role": "compensation"})
+        if rng.random() < 0.5:   # a third buffer: compensation role, or no role at all (default role)
+            b3 = {"name": "b-2", "type": "flex_buffer", "capacity": nj, "role": "compensation"}
+            if rng.random() < 0.4:
+                del b3["role"]
+            ic["buffer"].append(b3)
+        if "logistics" not in ic:
+            feats["custom_buffers_without_logistics"] = True
     # standalone buffers numbered ahead of the generated ids (b-0, b-1, b-7): generated ids must avoid them
     if "buffer" in ic and rng.random() < 0.5:
         nums = rng.sample(range(3, 12), len(ic["buffer"]))
@@ -875,6 +903,15 @@ def _direct_compile_oracles(d, inst, st):
         vs.append({"kind": "ids:duplicate_state", "detail": "compiled initial state has duplicate identifiers %s" % dup[:4],
                    "replay": {"dsl": d}, "facts": {"n": len(dup)}})
     lg = d["instance_config"].get("logistics")
+    if not lg:
+        # documented default: no logistics section = zero travel time between all machines and standalone buffers
+        places = [m.id for m in inst.machines] + [b.id for b in inst.buffers]
+        tt = inst.logistics.travel_times
+        missing = [(a, b) for a in places for b in places if getattr(tt.get((a, b)), "time", None) != 0]
+        if missing:
+            vs.append({"kind": "travel:default_missing", "detail": "no logistics section, but the default (zero) travel time "
+                       "is missing for %d directed pairs, e.g. %s" % (len(missing), missing[:3]), "replay": {"dsl": d},
+                       "facts": {}})
     if lg and "specification" in lg and "time_behavior" not in lg:
         ls = [l for l in lg["specification"].split("\n") if l.strip()]
         hdr = [h.strip() for h in ls[0].split("|")]
